@@ -170,6 +170,12 @@ def frame_case(draw):
 
 def check_frame(case):
     pts = [np.array(p, dtype=float) for p in case["points"]]
+    # single precision points (a trajectory frame) when every coordinate is exactly representable in it: the frame is
+    # then only single-precision exact
+    f32 = all(np.array_equal(p.astype(np.float32).astype(float), p) for p in pts) and len(repr(case["points"])) % 3 == 0
+    TOL_F = 2e-5 if f32 else globals()["TOL_F"]
+    if f32:
+        pts = [p.astype(np.float32) for p in pts]
     before = [p.copy() for p in pts]
     # the three points are handed over the way callers do: a list / tuple of vectors, one (3, 3) array (C or Fortran
     # ordered, or a view into a larger coordinate array), or a list of row views of one array
@@ -222,8 +228,8 @@ def check_frame(case):
                                 cls="frame-orthonormal:" + _bucket(case))
     if not abs(np.linalg.det(F) - 1.0) <= TOL_F:
         raise PropertyViolation("frame-right-handed", "det F = %r  %s" % (np.linalg.det(F), info))
-    d20 = pts[2] - pts[0]
-    d10 = pts[1] - pts[0]
+    d20 = pts[2].astype(float) - pts[0].astype(float)
+    d10 = pts[1].astype(float) - pts[0].astype(float)
     u = d20 / np.linalg.norm(d20)
     if not np.abs(F[0] - u).max() <= TOL_F:
         raise PropertyViolation("frame-first-vector", "first vector %r != unit(p2-p0) %r  %s"
@@ -233,10 +239,11 @@ def check_frame(case):
         if n and not abs(F[2] @ d) <= TOL_F * n:
             raise PropertyViolation("frame-normal", "third vector not normal to %s: %.3e  %s"
                                     % (nm, F[2] @ d / n, info))
-    if not np.array_equal(origin, before[0]):
+    if not np.array_equal(origin, before[0].astype(float)):
         raise PropertyViolation("frame-origin", "origin %r != p0  %s" % (origin.tolist(), info))
     nt = case["cls"] not in ("axis-x", "axis-y", "axis-z")
-    return {"nontrivial": nt, "classes": ["frame:" + case["cls"], "container:" + case.get("container", "list")]}
+    return {"nontrivial": nt, "classes": ["frame:" + case["cls"], "container:" + case.get("container", "list"),
+                                         "dtype:" + ("float32" if f32 else "float64")]}
 
 
 def _bucket(case):
